@@ -37,6 +37,9 @@ CHECKS["C12"] = ("exploration", "deterministic simulation of long histories (hun
 CHECKS["C09"] = ("exploration", "deterministic simulation with a harness-owned RNG: admissible-set monitor on every TxConfig, RNG-outcome enumeration of the final transmission by re-execution with forced draws, RNG-draw budget for termination",
  "Every frame handed to the radio in seeded histories (CFLists, LinkADRReq masks, NewChannelReq create/delete, ADR back-off across bandwidth classes, data-rate overrides, re-joins under join bias; 4 boards) must be in band, on a defined and enabled channel (join: a join channel with the mandated data rate), with a region-defined data rate of the channel's bandwidth and power within radio maximum, regional EIRP less gain and the commanded level. For the final transmission of each history all 64 first-draw outcomes are enumerated by re-execution (thorough: every run; quick: 1 in 8). Sampling over histories.",
  "Trusted: refregion.rs band/channel/power tables, the H1 snapshot for plan and mask in force. A retry loop that draws more than 100000 random numbers is reported as non-terminating.", "6 (C09)")
+CHECKS["C11"] = ("exploration", "deterministic simulation with a reference join server: loss / corruption / wrong key / foreign traffic / retries / re-joins; independent key derivation and 'applied iff valid' model compared with the device's session and H1 snapshot",
+ "Every JoinRequest handed to the radio is decoded (EUIs in wire order, MIC under the root key); JoinSuccess must coincide with an authentic JoinAccept delivered in RX1/RX2 (judged by the reference codec), and then keys, address, counters, RX delay, RX1 offset, RX2 data rate and CFList must equal the reference (valid settings applied, invalid ones ignored, ambiguous ones either). Sampling over the JoinAccept content space and attempt histories.",
+ "Trusted: reference codec (AES decrypt/encrypt duality self-tested), refregion.rs validity rules, H1 snapshot.", "6 (C11)")
 PENDING = {}
 
 def main():
